@@ -69,7 +69,9 @@ def strategy(tier):
                 "short_flags": draw(st.booleans()),
                 "tracker_alias": draw(st.sampled_from([False, False, True])),
                 "out_dir_form": draw(st.sampled_from([False, False, False, True])),
-                "content_spelling": draw(st.sampled_from(["abs", "abs", "trailing-sep", "dot-rel", "double-sep"]))}
+                "content_spelling": draw(st.sampled_from(["abs", "abs", "trailing-sep", "dot-rel", "double-sep"])),
+                "out_inside_content": draw(st.sampled_from([False, False, False, True])),
+                "decoy_ini_in_cwd": draw(st.sampled_from([False, False, True]))}
     return case()
 
 
@@ -233,20 +235,37 @@ def run_case(case):
             odir = os.path.join(scr, "out-" + route)
             os.makedirs(odir)
             out = odir + "/" if case["out_dir_form"] else os.path.join(odir, "res.torrent")
+            route_content = content
+            if case.get("out_inside_content") and not tree["single"] and not case["out_dir_form"] and tree["name"].isascii() \
+                    and not any(ch in tree["name"] for ch in "%#;=:[]") and tree["name"].strip() == tree["name"]:
+                # `out` points into the payload directory: every route gets its own byte-identical copy of the payload,
+                # so that no route hashes a metafile written by another one
+                import shutil
+                croot = os.path.join(scr, "copy-" + route)
+                os.makedirs(croot)
+                shutil.copytree(os.path.join(scr, "src", tree["name"]), os.path.join(croot, tree["name"]))
+                route_content = os.path.join(croot, tree["name"])
+                odir = route_content
+                out = os.path.join(route_content, "res-inside.torrent")
             want = expected_out(out, tree["name"])
+            if route == "config":
+                cfg = os.path.join(scr, "conf.ini")
+                with open(cfg, "w", encoding="ascii") as fd:
+                    fd.write(config_text(case, out))
+                if case.get("decoy_ini_in_cwd"):
+                    # a general defaults file in the working directory must not override the explicit --config-path
+                    with open(os.path.join(scr, "torrentfile.ini"), "w", encoding="ascii") as fd:
+                        fd.write(config_text(warm, os.path.join(scr, "decoy-default.torrent")))
             old = os.getcwd()
             os.chdir(scr)
             try:
                 if route == "cli":
-                    argv, swallowed = cli_argv(case, content, out)
+                    argv, swallowed = cli_argv(case, route_content, out)
                     target.execute(argv)
                 elif route == "config":
-                    cfg = os.path.join(scr, "conf.ini")
-                    with open(cfg, "w", encoding="ascii") as fd:
-                        fd.write(config_text(case, out))
-                    target.execute(["create", "--config", "--config-path", cfg, content])
+                    target.execute(["create", "--config", "--config-path", cfg, route_content])
                 else:
-                    kw = lib_kwargs(case, content, out)
+                    kw = lib_kwargs(case, route_content, out)
                     cls = target.torrent.TorrentFile if kw["meta_version"] == "1" else target.torrent.TorrentAssembler
                     with target.quiet():
                         cls(**kw).write()
@@ -258,7 +277,7 @@ def run_case(case):
                 return Outcome(Violation("C20:%s:exception:%s" % (route, type(e).__name__), "route %s raised %r" % (route, e)), True)
             finally:
                 os.chdir(old)
-            if case["out_dir_form"]:
+            if case["out_dir_form"] and odir != route_content:
                 # `out` names a directory: which file name the tool picks inside it is not C20's business
                 inside = [x for x in os.listdir(odir) if os.path.isfile(os.path.join(odir, x))]
                 if len(inside) == 1:
